@@ -848,6 +848,8 @@ fn parse_json_filter(input: &[u8], output: &mut [u8]) -> Result<(usize, usize), 
             verify_char(input, b'[', &mut inpos)?;
             burn_array(input, &mut inpos, 0)?;
         } else {
+            // An unknown member: skip it, starting again from its opening quote
+            inpos -= 1;
             burn_key_and_value(input, &mut inpos, 0)?;
         }
     }
